@@ -8,7 +8,7 @@ property count.  Direct monitor of the property on the same kind of runs (harnes
 from .. import refine, runs
 
 MODULE = 'PyhmsVerif.Props.C01Stored'
-THEOREMS = ['C01.C01_run', 'C01.step_logInBox', 'C01.rejection_inBox', 'C01.repaired_inBox', 'C17.repair_inBox', 'C01.C01_stored_in_box', 'EngineDE.deGen_trials_inBox', 'EngineDE.shadeGen_trials_inBox', 'EngineSEA.seaOffspring_inBox']
+THEOREMS = ['C01.C01_run', 'C01.step_logInBox', 'C01.rejection_inBox', 'C01.repaired_inBox', 'C17.repair_inBox', 'C01.C01_stored_in_box', 'EngineDE.deGen_trials_inBox', 'EngineDE.shadeGen_trials_inBox', 'EngineSEA.seaOffspring_inBox', 'EngineDE.shadeGen_archive']
 EXTRA_MODULES = ['PyhmsVerif.Props.EngineDE', 'PyhmsVerif.Props.EngineSEA']
 LEVEL = 'proof'
 LEVEL_TEXT = 'Theorem: in every state reachable in the tree model every objective invocation lies in its level box (all configs, engines, seeds, event sequences); kernel theorems: apply_bounds result in box for every input and rounding function, rejection loop returns only in-box points. Tie: trace refinement (the model rejects an out-of-box invocation at that event) + bit-exact apply_bounds correspondence (C17) + direct monitor of all invocations, stored genomes and seeds. NEW: C01_stored_in_box — in every reachable state every stored individual that was obtained from the objective lies inside the box of its deme level (it is backed by a logged invocation, C02_stored_is_objective_value, and every logged invocation is in the box, C01_run); the only other stored individuals are sentinel carriers of refused requests and a local deme starting point (its seed). ENGINE LEVEL (Model/Engine.lean, Props/EngineDE.lean): one whole generation of DE.run / SHADE.run is in the model, deterministic given the generator draws (donor arithmetic in binary64, reflect repair, crossover mask incl. the row-zeroing quirk, fitness carry-over, which rows are evaluated, replacement), and is diffed bit-exactly against the real engines with recorded draws: deGen_trials_inBox / shadeGen_trials_inBox — parents inside the box imply every trial genome inside the box, for all draws, scaling factors, crossover probabilities, archives and rounding functions (no EnvBox assumption for DE / SHADE). SEA FAMILY (Engine.seaOffspring, Props/EngineSEA.lean): one pass of the variational pipeline (tournament = first best contestant, arithmetic crossover in binary64, Gaussian mutation with toroidal repair or uniform mutation, loss of fitness on changed rows, evaluation in row order) is in the model and diffed bit-exactly against BaseSEA.run with recorded draws: seaOffspring_inBox — for SEA / SEAWithCrossover / SEAWithAdaptiveMutation every offspring genome lies inside the box whatever the crossover produced and whatever noise was drawn (GAStyleSEA keeps crossover results and uniform draws unrepaired: EnvBox, monitored).'
